@@ -146,13 +146,13 @@ theorem interp_at_node {α : Type} [Field α] [LinearOrder α] [IsStrictOrderedR
     interp p.1 tbl = some p.2 := interp_node tbl hs p hp
 
 /-! `fix_number` on the forms the table uses -/
-example : fixNumber "35.24(2)*".toList = some (.valUnc ⟨3524, 2⟩ ⟨2, 2⟩) := by decide
-example : fixNumber "<6.0E-6".toList = some (.plain ⟨60, 7⟩) := by decide
-example : fixNumber "".toList = some .missing := by decide
-example : fixNumber "2065.(35.)".toList = some (.valUnc ⟨2065, 0⟩ ⟨35, 0⟩) := by decide
+example : fixNumber "35.24(2)*".toList = some (.valUnc ⟨3524, 2⟩ ⟨2, 2⟩) := by decide +kernel
+example : fixNumber "<6.0E-6".toList = some (.plain ⟨60, 7⟩) := by decide +kernel
+example : fixNumber "".toList = some .missing := by decide +kernel
+example : fixNumber "2065.(35.)".toList = some (.valUnc ⟨2065, 0⟩ ⟨35, 0⟩) := by decide +kernel
 example : (parseNsfLine "4-Be-9,100,3/2,7.79(1),,,,7.63(2),0.0018(9),7.63(2),0.0076(8)".toList).map
     (fun r => (r.z, r.a, r.p, r.spin, r.b_c, r.isE)) =
-    some (4, 9, some (.plain ⟨100, 0⟩), "3/2", .valUnc ⟨779, 2⟩ ⟨1, 2⟩, false) := by decide
+    some (4, 9, some (.plain ⟨100, 0⟩), "3/2", .valUnc ⟨779, 2⟩ ⟨1, 2⟩, false) := by decide +kernel
 
 /-! ## Part 2 — the embedded tables (kernel-checked on every run) -/
 
